@@ -106,9 +106,16 @@ def step (o : Op V) (m : BMap V) : BMap V × Ret V :=
   | .keys => (m, .keys (m.map (·.1)))
   | .values => (m, .vals (m.map (·.2)))
 
-/-- run a history from the empty map, collecting the return values -/
-def run (ops : List (Op V)) : BMap V × List (Ret V) :=
-  ops.foldl (fun (acc : BMap V × List (Ret V)) o => let (m', r) := step o acc.1; (m', acc.2 ++ [r])) ([], [])
+/-- run a history from the state `m`, collecting the return values -/
+def runFrom (m : BMap V) : List (Op V) → BMap V × List (Ret V)
+  | [] => (m, [])
+  | o :: os =>
+    let (m', r) := step o m
+    let (m'', rs) := runFrom m' os
+    (m'', r :: rs)
+
+/-- a history applied to `Map::new()` -/
+def run (ops : List (Op V)) : BMap V × List (Ret V) := runFrom [] ops
 
 /-- states reachable from `Map::new()` by any history of API calls -/
 inductive Reachable : BMap V → Prop where
